@@ -973,7 +973,10 @@ func (a *Authenticator) validateTokenAndDeriveKeys(authData *TokenAuthData, nego
 		return fmt.Errorf("token validation failed: %w", err)
 	}
 
-	// Extract subject from claims
+	// Extract subject from claims. The authenticated identity must come from the
+	// signed token only: discard the ID the client claimed in step 1 so that a
+	// token without a subject cannot be used to assume an arbitrary identity.
+	authData.ClientID = ""
 	if sub, ok := claims["sub"]; ok {
 		if subStr, ok := sub.(string); ok {
 			authData.ClientID = subStr
